@@ -499,6 +499,58 @@ func editors(r *vlib.Run) {
 		if !failed {
 			checkFresh(c, "Mesh.EliminateEdges(predicate-queries-working-mesh)", ee2, rng)
 		}
+		// an edge whose ends are adjacent floating-point numbers: its midpoint rounds onto one of the
+		// ends, so the merged vertex has the coordinates of a vertex that is being removed
+		{
+			src := model3d.MarchingCubes(b, delta*2)
+			tris := src.TriangleSlice()
+			if len(tris) > 0 {
+				t := tris[rng.Intn(len(tris))]
+				u, v := t[0], t[1]
+				vNew := u
+				switch rng.Intn(3) {
+				case 0:
+					vNew.X = math.Nextafter(u.X, math.Inf(1))
+				case 1:
+					vNew.Y = math.Nextafter(u.Y, math.Inf(-1))
+				default:
+					vNew.Z = math.Nextafter(u.Z, math.Inf(1))
+				}
+				adj := src.MapCoords(func(p C3) C3 {
+					if p == v {
+						return vNew
+					}
+					return p
+				})
+				adj.VertexSlice()
+				collapsed := 0
+				ee3 := adj.EliminateEdges(func(tmp *model3d.Mesh, seg model3d.Segment) bool {
+					if (seg[0] == u && seg[1] == vNew) || (seg[0] == vNew && seg[1] == u) {
+						collapsed++
+						return true
+					}
+					return false
+				})
+				if collapsed > 0 {
+					c.Count("editors.collapses_of_an_edge_between_adjacent_floats", 1)
+				}
+				checkFresh(c, "Mesh.EliminateEdges(edge-between-adjacent-floats)", ee3, rng)
+			}
+		}
+		// bisection run until the floating-point bracket is exhausted on a box whose faces lie on
+		// lattice planes: refined vertices of different lattice edges land on the same point
+		{
+			off := []float64{1, 3, 1024, 1 << 20}[rng.Intn(4)]
+			sz := float64(1 + rng.Intn(2))
+			box := model3d.NewRect(model3d.XYZ(off, off, off), model3d.XYZ(off+sz, off+sz, off+sz))
+			dl := []float64{0.5, 0.25}[rng.Intn(2)]
+			iters := []int{50, 64, 100}[rng.Intn(3)]
+			ms := model3d.MarchingCubesSearch(box, dl, iters)
+			c.Count("editors.exhausted_bisection_meshes", 1)
+			checkFresh(c, "MarchingCubesSearch(exhausted-bisection-on-aligned-box)", ms, rng)
+			mi, _ := model3d.MarchingCubesInterior(box, dl, iters)
+			checkFresh(c, "MarchingCubesInterior(exhausted-bisection-on-aligned-box)", mi, rng)
+		}
 		rp := small.Repair(delta / 10)
 		checkFresh(c, "Mesh.Repair", rp, rng)
 		sd := model3d.NewSubdivider()
